@@ -1,0 +1,154 @@
+//go:build verif
+
+package yqlib
+
+// Hook points used by the model-checking harness in /verif (build tag "verif").
+// Without the tag verif_hooks_off.go provides empty functions and none of this is compiled.
+
+import (
+	"fmt"
+	"io"
+	"os"
+	"strconv"
+	"strings"
+	"sync"
+	"syscall"
+)
+
+// VerifStepHook, when set by an in-process harness, is consulted at every file-system step.
+var VerifStepHook func(name string) error
+
+// VerifYieldHook, when set by an in-process harness, is called at every access to library
+// state that outlives one evaluation (scheduling point of the controlled scheduler).
+var VerifYieldHook func(name string)
+
+var (
+	verifMu      sync.Mutex
+	verifCount   int
+	verifPlan    map[int]string
+	verifPlanSet bool
+)
+
+func verifLoadPlan() {
+	if verifPlanSet {
+		return
+	}
+	verifPlanSet = true
+	verifPlan = map[int]string{}
+	// YQ_VERIF_PLAN="3:err,7:kill": the 3rd reached step fails, the process kills itself before the 7th
+	for _, item := range strings.Split(os.Getenv("YQ_VERIF_PLAN"), ",") {
+		parts := strings.SplitN(strings.TrimSpace(item), ":", 2)
+		if len(parts) != 2 {
+			continue
+		}
+		if k, err := strconv.Atoi(parts[0]); err == nil {
+			verifPlan[k] = parts[1]
+		}
+	}
+}
+
+func verifTrace(name string) {
+	if path := os.Getenv("YQ_VERIF_TRACE"); path != "" {
+		if f, err := os.OpenFile(path, os.O_APPEND|os.O_CREATE|os.O_WRONLY, 0o600); err == nil {
+			fmt.Fprintln(f, name)
+			f.Close()
+		}
+	}
+	if os.Getenv("YQ_VERIF_MARK") != "" {
+		// marker syscall, visible to strace: lets the harness check that no file-system call escapes the step list
+		_ = syscall.Access("/.verif/"+name, 0)
+	}
+}
+
+// verifNext counts a reached step and returns the planned action for it ("" = none).
+func verifNext(name string) string {
+	verifMu.Lock()
+	defer verifMu.Unlock()
+	verifLoadPlan()
+	verifCount++
+	verifTrace(name)
+	return verifPlan[verifCount]
+}
+
+func verifKill() {
+	_ = syscall.Kill(os.Getpid(), syscall.SIGKILL)
+	select {}
+}
+
+func verifStep(name string) error {
+	if VerifStepHook != nil {
+		if err := VerifStepHook(name); err != nil {
+			return err
+		}
+	}
+	switch verifNext(name) {
+	case "err", "short":
+		return fmt.Errorf("injected fault at step %v", name)
+	case "kill", "killhalf":
+		verifKill()
+	}
+	return nil
+}
+
+func verifYield(name string) {
+	if VerifYieldHook != nil {
+		VerifYieldHook(name)
+	}
+}
+
+// verifCopyStep stands before io.Copy(out, in) of the cross-device fallback: "short" copies half and fails,
+// "killhalf" copies half and kills the process (a crash in the middle of the copy).
+func verifCopyStep(out *os.File, in *os.File) error {
+	if VerifStepHook != nil {
+		if err := VerifStepHook("copy.copy"); err != nil {
+			return err
+		}
+	}
+	action := verifNext("copy.copy")
+	switch action {
+	case "err":
+		return fmt.Errorf("injected fault at step copy.copy")
+	case "kill":
+		verifKill()
+	case "short", "killhalf":
+		if info, err := in.Stat(); err == nil {
+			_, _ = io.CopyN(out, in, info.Size()/2)
+		}
+		if action == "killhalf" {
+			verifKill()
+		}
+		return fmt.Errorf("injected short copy at step copy.copy")
+	}
+	return nil
+}
+
+type verifWriter struct{ w io.Writer }
+
+func (v *verifWriter) Write(p []byte) (int, error) {
+	if VerifStepHook != nil {
+		if err := VerifStepHook("write"); err != nil {
+			return 0, err
+		}
+	}
+	switch verifNext("write") {
+	case "err":
+		return 0, fmt.Errorf("injected write fault")
+	case "kill":
+		verifKill()
+	case "short":
+		n, _ := v.w.Write(p[:len(p)/2])
+		return n, fmt.Errorf("injected short write")
+	case "killhalf":
+		_, _ = v.w.Write(p[:len(p)/2])
+		verifKill()
+	}
+	return v.w.Write(p)
+}
+
+// verifWrapWriter makes every write that reaches the output (the bufio flushes of the printer) a step.
+func verifWrapWriter(w io.Writer) io.Writer {
+	if os.Getenv("YQ_VERIF_PLAN") == "" && os.Getenv("YQ_VERIF_TRACE") == "" && VerifStepHook == nil {
+		return w
+	}
+	return &verifWriter{w: w}
+}
